@@ -217,9 +217,14 @@ def Op.nats : Op → List Nat
   | .updateOne _ kw => kw.flatMap Assign.nats
   | _ => []
 
-/-- the parameter binding error of a call, if any (the transaction is rolled back) -/
+/-- the error that refuses a call before it touches a row (the transaction is rolled back):
+`UPDATE queued_urls SET  WHERE …` (no column) is a syntax error, met before anything is bound;
+otherwise the first value the binding layer cannot convert -/
 def bindErr (op : Op) : Option Exc :=
-  if op.strs.any hasSurrogate then some .UnicodeEncodeError
+  if (match op with
+      | .updateOne _ kw => kw.isEmpty
+      | _ => false) then some .OperationalError
+  else if op.strs.any hasSurrogate then some .UnicodeEncodeError
   else if op.nats.any tooBig then some .OverflowError
   else none
 
@@ -429,9 +434,7 @@ def step (disk : Bool) (t : Table) (op : Op) : Table × Out :=
     | .addMany b => addMany t b
     | .checkOut st lv => checkOut t st lv
     | .checkIn u st inc r => (updateWhere t u (fun c => c.checkIn st inc r), .none)
-    | .updateOne u kw =>
-      if kw.isEmpty then (t, .exc .OperationalError)
-      else (updateWhere t u (fun c => kw.foldl Cols.assign c), .none)
+    | .updateOne u kw => (updateWhere t u (fun c => kw.foldl Cols.assign c), .none)
     | .release => ({ t with rows := t.rows.map (fun r => { r with cols := r.cols.release }) }, .none)
     | .removeMany us => ({ t with rows := us.foldl (removeOne t.strings) t.rows }, .none)
     | .addVisits vs => ({ t with visits := vs.foldl addVisit t.visits }, .none)
@@ -455,9 +458,7 @@ def sstep (disk : Bool) (s : Spec) (op : Op) : Spec × Out :=
     | .addMany b => sAddMany s b
     | .checkOut st lv => sCheckOut s st lv
     | .checkIn u st inc r => (sUpdateWhere s u (fun c => c.checkIn st inc r), .none)
-    | .updateOne u kw =>
-      if kw.isEmpty then (s, .exc .OperationalError)
-      else (sUpdateWhere s u (fun c => kw.foldl Cols.assign c), .none)
+    | .updateOne u kw => (sUpdateWhere s u (fun c => kw.foldl Cols.assign c), .none)
     | .release => ({ s with rows := s.rows.map (fun r => { r with cols := r.cols.release }) }, .none)
     | .removeMany us => ({ s with rows := us.foldl sRemoveOne s.rows }, .none)
     | .addVisits vs => ({ s with visits := vs.foldl addVisit s.visits }, .none)
